@@ -46,6 +46,10 @@ class Command(SerializableMixin, DictableMixin):
         self.argument = match.group(2).decode('utf-8', errors='surrogateescape')
 
     def to_bytes(self):
+        if '\r' in self.argument or '\n' in self.argument:
+            # For example, from a percent-decoded URL path or login.
+            raise ProtocolError('FTP command argument contains a line break.')
+
         return '{0} {1}\r\n'.format(self.name, self.argument).encode(
             'utf-8', errors='surrogateescape')
 
